@@ -516,6 +516,46 @@ fn multi_root_quit_case(ctx: &mut Ctx, execdir: bool, roots: &[&str], failing: b
     None
 }
 
+/// find's own standard output cannot be written (/dev/full) and holds pending text when a batch is
+/// dispatched (-printf without a newline, -print0): every pending invocation still runs, with every path.
+fn unwritable_stdout_case(ctx: &mut Ctx, execdir: bool, own: &[&str], quit: bool) -> Option<(String, String)> {
+    use std::process::{Command, Stdio};
+    let w = ctx.sbx.join("w");
+    let _ = crate::sandbox::force_remove(&w);
+    std::fs::create_dir_all(w.join("r/d")).ok()?;
+    std::fs::write(w.join("r/d/f"), b"").ok()?;
+    std::fs::write(w.join("r/a"), b"").ok()?;
+    std::fs::write(w.join("r/g"), b"").ok()?;
+    let log = ctx.sbx.join(".mc-vrec.log");
+    let _ = std::fs::remove_file(&log);
+    let prim = if execdir { "-execdir" } else { "-exec" };
+    let mut argv: Vec<String> = vec!["r".into(), "-sorted".into()];
+    argv.extend(own.iter().map(|s| s.to_string()));
+    argv.extend([prim.to_string(), vrec(), log.to_string_lossy().to_string(), "{}".to_string(), "+".to_string()]);
+    if quit {
+        argv.extend(["-name".to_string(), "d".to_string(), "-quit".to_string()]);
+    }
+    let full = std::fs::OpenOptions::new().write(true).open("/dev/full").ok()?;
+    let o = Command::new(crate::engine::repo_bin_dir().join("find")).args(&argv).current_dir(&w).env_clear().stdin(Stdio::null()).stdout(Stdio::from(full)).stderr(Stdio::piped()).output().ok()?;
+    ctx.rep.evaluations += 1;
+    ctx.rep.nontrivial += 1;
+    let recs = vreclog::read(&log).unwrap_or_default();
+    let mut got: Vec<String> = recs.iter().flat_map(|r| r.args.iter().map(|a| lossy(a)).collect::<Vec<_>>()).collect();
+    // visit order (-sorted): r, r/a, r/d, [r/d/f, r/g]
+    let reached: Vec<&str> = if quit { vec!["r", "r/a", "r/d"] } else { vec!["r", "r/a", "r/d", "r/d/f", "r/g"] };
+    let mut want: Vec<String> = reached.iter().map(|p| if execdir { format!("./{}", p.rsplit('/').next().unwrap()) } else { p.to_string() }).collect();
+    got.sort();
+    want.sort();
+    let tag = format!("{prim} after {} with standard output on /dev/full{}", own[0], if quit { ", then -quit" } else { "" });
+    if matches!(o.status.code(), Some(101) | Some(134) | None) {
+        return Some((format!("C08 panic / crash [{tag}]"), format!("find {:?}: {:?} stderr {:?}", argv, o.status, lossy(&o.stderr))));
+    }
+    if got != want {
+        return Some((format!("C08 a pending invocation did not run (or lost paths) because find's own output could not be written [{tag}]"), format!("find {:?} >/dev/full: status {:?}; delivered {:?}, expected {:?}; stderr {:?}", argv, o.status.code(), got, want, lossy(&o.stderr))));
+    }
+    None
+}
+
 fn fnv_seg(args: &[Vec<u8>]) -> (u64, usize) {
     let mut h: u64 = 0xcbf29ce484222325;
     let mut bytes = 0;
@@ -781,6 +821,20 @@ fn run(ctx: &mut Ctx) {
     if ctx.mine(job) {
         crate::props::c09::start_failure_history(ctx, "C08", "+");
     }
+    // (iv-d) find's own output unwritable and pending when the batch runs
+    for execdir in [false, true] {
+        for own in [vec!["-printf", "%p"], vec!["-print0"], vec!["-printf", "%p\\n"], vec!["-print"]] {
+            for quit in [false, true] {
+                job += 1;
+                if !ctx.mine(job) {
+                    continue;
+                }
+                if let Some((sig, detail)) = unwritable_stdout_case(ctx, execdir, &own, quit) {
+                    ctx.rep.violation(&sig, detail, json!({"prop":"C08","part":"unwritable_stdout","execdir":execdir,"own":own,"quit":quit}));
+                }
+            }
+        }
+    }
     // (iv-c) 150 directories with 64 file descriptors
     job += 1;
     if ctx.mine(job) {
@@ -859,6 +913,17 @@ fn replay(case: &Value, ctx: &mut Ctx) -> Option<String> {
     if case["start_failure_history"] == true {
         crate::props::c09::start_failure_history(ctx, "C08", "+");
         return ctx.rep.violations.keys().next().cloned();
+    }
+    if case["part"] == "unwritable_stdout" {
+        let own: Vec<String> = case["own"].as_array()?.iter().map(|v| v.as_str().unwrap_or("").to_string()).collect();
+        let oo: Vec<&str> = own.iter().map(|s| s.as_str()).collect();
+        return match unwritable_stdout_case(ctx, case["execdir"].as_bool()?, &oo, case["quit"].as_bool()?) {
+            Some((sig, detail)) => {
+                ctx.rep.violation(&sig, detail, case.clone());
+                Some(sig)
+            }
+            None => None,
+        };
     }
     if case["part"] == "multi_root_quit" {
         let roots: Vec<String> = case["roots"].as_array()?.iter().map(|v| v.as_str().unwrap_or("").to_string()).collect();
